@@ -71,6 +71,11 @@ def stages(tier, rng, only=None):
     out.append(ac.stage("many_rankings", PID, lambda: ac.cases(
         [ac.random_dataset(rng, 4, 30, nmin=2) for _ in range(n_rand // 2)], cfgs, FAM, flags=(0,),
         namings=["ints", "letters"]), _nt))
+    out.append(ac.stage("very_many_rankings", PID, lambda: ac.cases(
+        [ac.many_rankings_dataset(rng) for _ in range(12 if tier == "quick" else 100)], cfgs, SCHEMES, flags=(0,),
+        all_schemes=True, namings=["ints", "letters"]), _nt))
+    out.append(ac.stage("larger", PID, lambda: ac.cases([ac.larger_dataset(rng) for _ in range(n_rand // 4)], cfgs, FAM,
+                                                        flags=(0,), namings=["ints", "letters", "big"]), _nt))
     out.append(ac.stage("equal_means", PID, lambda: ac.cases(equal_means(rng, n_rand // 2), cfgs, FAM, flags=(0,),
                                                              all_schemes=True, namings=["ints", "letters"]), _nt))
     if tier == "thorough":
